@@ -24,8 +24,13 @@ fn make_stream(rng: &mut Rng, pair: u8, l: usize, trailer: usize) -> Vec<u8> {
     s.push(0x20 | cmd);
     s.push((fam << 4) | proto);
     s.extend_from_slice(&(l as u16).to_be_bytes());
-    // "whatever their values": the payload is seeded noise
-    s.extend(rng.bytes(l + trailer));
+    // "whatever their values": the payload is seeded noise, sometimes carrying bytes that
+    // mean something elsewhere in the protocol
+    let mut payload = rng.bytes(l + trailer);
+    if rng.chance(1, 6) {
+        crate::wire::embed_interesting(rng, &mut payload);
+    }
+    s.extend(payload);
     s
 }
 
